@@ -55,7 +55,7 @@ class G2:
         if env["objs"]:
             opts += [("getter", 8), ("intgetter", 2)]
         if d > 0:
-            opts += [("arith", 3), ("abs", 1), ("fn", 1), ("ifexp", 2), ("let", 1)]
+            opts += [("arith", 3), ("abs", 1), ("fn", 1), ("ifexp", 2), ("let", 1), ("div", 1), ("intmod", 1), ("pow", 1), ("neg", 1)]
             if env["objs"]:
                 opts += [("index_vec", 1)]
             if env["e"] or env["objs"]:
@@ -86,6 +86,14 @@ class G2:
             return f"{s}[{self.integer(env, d - 1)}].{r.choice(qgen.DOUBLE_METHODS)}()"
         if k == "arith":
             return f"({self.num(env, d - 1)} {r.choice(['+', '-', '*'])} {self.num(env, d - 1)})"
+        if k == "div":
+            return f"({self.num(env, d - 1)} / {self.num(env, d - 1)})"
+        if k == "intmod":
+            return f"({self.integer(env, d - 1)} % {r.choice(['2', '3'])})"
+        if k == "pow":
+            return f"({self.num(env, d - 1)} ** 2)"
+        if k == "neg":
+            return f"(-{self.num(env, d - 1)})"
         if k == "abs":
             return f"abs({self.num(env, d - 1)})"
         if k == "fn":
@@ -119,7 +127,8 @@ class G2:
             agg = r.choice(["Sum", "Max", "Min", "Count", "Aggregate"])
             if agg == "Aggregate":
                 a, v = self.var("a"), self.var("x")
-                return f"{s}.Aggregate(0.0, lambda {a}, {v}: {a} + {v})"
+                body = r.choice([f"{a} + {v}", f"{a} + {v}", f"{a} * {v}", f"{a} + 1", f"{a} + {v} * {v}", f"{v}"])
+                return f"{s}.Aggregate({r.choice(['0.0', '0.0', '1.0', '0', '-1.0'])}, lambda {a}, {v}: {body})"
             return f"{s}.{agg}()"
         if k == "count":
             return f"{self.seq_obj(env, d - 1)[0]}.Count()"
@@ -300,11 +309,21 @@ class G2:
         return {"e": env["e"], "objs": env["objs"], "nums": env["nums"] + [v], "ints": env.get("ints", [])}
 
     def column(self, env, d):
-        k = qgen.weighted_choice(self.r, [("num", 4), ("seq", 4), ("seq2", 2)])
+        k = qgen.weighted_choice(self.r, [("num", 8), ("seq", 8), ("seq2", 4), ("seq3", 1)])
         if k == "num":
             return self.num(env, d)
         if k == "seq":
             return self.seq_num(env, d)
+        if k == "seq3":
+            # a 3-D column: per object, per sub-object, a vector
+            s, et = self.seq_obj(dict(env, objs=[]), max(0, d - 1))
+            v, w = self.var("o"), self.var("sub")
+            self.declare(et, "subs")
+            was = self.uncond
+            self.uncond = False
+            inner = self.seq_num(self.push_obj(self.push_obj(env, v, et), w, et), 0)
+            self.uncond = was
+            return f"{s}.Select(lambda {v}: {v}.subs().Select(lambda {w}: {inner}))"
         s, et = self.seq_obj(env, max(0, d - 1))
         v = self.var("sub" if ".subs()" in s else "o")
         was = self.uncond
@@ -321,7 +340,7 @@ class G2:
         if r.random() < 0.25:
             steps.append(["Where", f"lambda e: {self.boolean(env, 1)}"])
             self.uncond = False
-        form = r.choice(["single", "tuple", "dict", "rows"])
+        form = r.choice(["single", "tuple", "tuple", "dict", "dict", "rows", "rows", "list"])
         cols = None
         if form == "rows":
             s, et = self.seq_obj(env, d - 1)
@@ -339,6 +358,8 @@ class G2:
                 steps.append(["Select", f"lambda e: {cols[0]}"])
             elif form == "tuple":
                 steps.append(["Select", f"lambda e: ({', '.join(cols)})"])
+            elif form == "list":
+                steps.append(["Select", f"lambda e: [{', '.join(cols)}]"])
             else:
                 steps.append(["Select", "lambda e: {" + ", ".join(f"'c{i}': {c}" for i, c in enumerate(cols)) + "}"])
         md = [[0, m] for _, m in sorted(self.md.items(), key=lambda kv: repr(kv[0]))]
